@@ -158,6 +158,20 @@ Example C16_put_errors_tight :
     [ODone []; OErr []; ODone []; OPut true [(1, 11)]].
 Proof. vm_compute. repeat split; reflexivity. Qed.
 
+(* A hit refreshes recency: in any reachable state a Get that returns a value
+   returns the resident value of k and moves exactly that entry to the front
+   of the recency order, all others keeping their relative order — so by
+   C16_lru_eviction_order (a kept PREFIX) it is the last entry the following
+   evictions drop. *)
+Theorem C16_hit_refreshes_recency : forall cp ops0 k x cbs,
+  0 <= cp < two64 -> Forall wf_op ops0 ->
+  let c := fst (run (empty cp) ops0) in
+  snd (step c (Get k)) = OVal (Some x) cbs ->
+  exists v, vid v = x /\ rfind (abs_list (ll c)) k = Some v /\
+    abs_list (ll (fst (step c (Get k)))) = (k, v) :: rremove (abs_list (ll c)) k.
+Proof. exact reach_get_hit_moves_to_front. Qed.
+Print Assumptions C16_hit_refreshes_recency.
+
 (* Concurrency: for ANY number of concurrent callers, from ANY state and under
    EVERY schedule of their atomic blocks, the outcome is that of running the
    completed calls one after the other in some order (the order of their
